@@ -23,7 +23,13 @@ def bounds(tier, seed):
 
 def cases(tier, seed):
     D = 3 if tier == 'quick' else 4
-    P, f, lam = geom.lattice(seed, ground=True)
+    yield from _cases(tier, seed, False)
+    yield from _cases(tier, seed, True)
+
+
+def _cases(tier, seed, special):
+    D = 3 if tier == 'quick' else 4
+    P, f, lam = geom.lattice(seed, ground=True, special=special)
     pts = [list(map(float, p)) for p in P]
     # extra points: verticals above the two ground points and a horizontal run
     s = np.linalg.norm(P[1] - P[0])
@@ -79,12 +85,10 @@ def evaluate(c):
     except ValueError as e:
         return dict(viol=[('REJECTED', str(e))])
     # feed positions from the ground model's pulse table
-    bypt = {}
-    for p in g0.pulses:
-        bypt.setdefault(geom._rt(p.point, 6), []).append(p)
+    pm = geom.pulse_by_point(g0)
     feeds = []
     for p in g0.pulses:
-        if len(bypt[geom._rt(p.point, 6)]) > 1:
+        if len(geom.pulses_at(pm, p.point)) > 1:
             continue
         feeds.append((list(map(float, p.point)), list(map(float, geom.orient(p))), bool(p.ground.any())))
     sets = [[(f, 1 + 0j)] for f in feeds]
@@ -92,6 +96,7 @@ def evaluate(c):
         sets.append([(feeds[0], 1 + 0j), (feeds[-1], 0.5 - 0.5j)])
         sets.append([(feeds[len(feeds) // 2], -0.3 + 2j), (feeds[0], 1j)])
     viol, worst, ns = [], 0.0, 0
+    nogain = 0
     wnote = None
     zen = (0., 15., 7)
     azi = (0., 30., 12)
@@ -114,7 +119,8 @@ def evaluate(c):
         ns += 1
         # currents: conductor half currents of the upper half space
         hg = geom.half_currents(g)
-        hf = {k: v for k, v in geom.half_currents(fr).items() if k[0][2] > 1e-9 or (abs(k[0][2]) <= 1e-9 and k[1][2] > 0)}
+        hf = geom.half_currents(fr)
+        hf = hf.select((hf.P[:, 2] > hf.tol) | ((np.abs(hf.P[:, 2]) <= hf.tol) & (hf.U[:, 2] > 0)))
         dI = geom.cmp_half_currents(hg, hf)
         if dI is None:
             viol.append(('KEYS', 'half-segment sets of ground and pair model differ'))
@@ -127,11 +133,18 @@ def evaluate(c):
             i += 1 if gnd else 2
         dZ = max(abs(a - b) / abs(b) for a, b in zip(zg, zf))
         # gain
-        _, _, gg = obs.far(g, zen, azi)
-        _, _, gf = obs.far(fr, zen, azi)
-        tg, tf = gg[..., 2], gf[..., 2]
-        msk = tg > tg.max() - 30
-        dG = float(np.max(np.abs(tg[msk] - tf[msk] - 3.0103)))
+        # gain is defined only for a net radiator: two sources can exchange power so that the net input
+        # power is a small (even negative) difference; then the dBi normalisation is meaningless
+        app = sum(abs(s.power) for s in g.sources)
+        if g.power > 0.05 * app:
+            _, _, gg = obs.far(g, zen, azi)
+            _, _, gf = obs.far(fr, zen, azi)
+            tg, tf = gg[..., 2], gf[..., 2]
+            msk = tg > tg.max() - 30
+            dG = float(np.max(np.abs(tg[msk] - tf[msk] - 3.0103)))
+        else:
+            dG = 0.0
+            nogain += 1
         for k, x, t in (('I', dI, tol), ('Z', dZ, tol), ('G', dG, 0.01)):
             if x / t > worst:
                 worst, wnote = x / t, (k, x, cond, [f[0][0] for f in fs])
@@ -141,4 +154,5 @@ def evaluate(c):
     und = sorted((e['a'], e['b'], e['n'], round(e['r'], 9)) for e in c['st'])
     ngnd = sum(1 for p in g0.pulses if p.ground.any())
     return dict(viol=viol[:6], canon=['%s|%d' % (und, i) for i in range(ns)], nontriv=True, trans=2 * ns, traces=ns,
-                evals=2 * ns, dev=worst, outcome='gnd=%d,wires=%d' % (ngnd, len(c['st'])), note=wnote)
+                evals=2 * ns, dev=worst, outcome='gnd=%d,wires=%d' % (ngnd, len(c['st'])), note=wnote,
+                skips={'gain-undefined(net power<5% of sum |P_source|)': nogain} if nogain else None)
